@@ -278,10 +278,33 @@ func zoneSecs(rs []vegeta.Result) []int {
 
 // checkFailingEncode drives one encoder over rs (some of which cannot be encoded) and checks after every
 // call that what reached the writer decodes to exactly the results of the calls that returned nil.
+// encCallsModel collects `c09.enccalls` operations: the model of an encoder that is called repeatedly.
+var encCallsModel = &kit.Stream{Name: "encoder-call-sequences"}
+
+func zoneTok(x *vegeta.Result) string {
+	if x.Timestamp.Location() == time.UTC {
+		return "u"
+	}
+	_, off := x.Timestamp.Zone()
+	return strconv.Itoa(off)
+}
+
 func checkFailingEncode(s *kit.Summary, cd codec, rs []vegeta.Result) (sawError bool) {
 	w := &recWriter{}
 	enc := cd.enc(w)
 	var okRs []vegeta.Result
+	var sizes []int
+	status := ""
+	wholeMinutes := true
+	defer func() {
+		if len(sizes) == len(rs) && wholeMinutes {
+			op := "c09.enccalls " + cd.name + " " + strconv.Itoa(len(rs))
+			for j := range rs {
+				op += " " + zoneTok(&rs[j]) + " " + gen.ResultLine(&rs[j])
+			}
+			encCallsModel.Add(op, ints(sizes)+" |"+status)
+		}
+	}()
 	lines := make([]string, len(rs))
 	for j := range rs {
 		lines[j] = gen.ResultLine(&rs[j])
@@ -292,8 +315,14 @@ func checkFailingEncode(s *kit.Summary, cd codec, rs []vegeta.Result) (sawError 
 		p, _ := kit.Recover(func() { err = enc.Encode(&x) })
 		if err == nil && !p {
 			okRs = append(okRs, rs[j])
+			status += " 1"
 		} else {
 			sawError = true
+			status += " 0"
+		}
+		sizes = append(sizes, w.buf.Len())
+		if _, off := x.Timestamp.Zone(); off%60 != 0 && cd.name == "json" {
+			wholeMinutes = false // the JSON model prints zones of whole minutes only
 		}
 		got, term := decodePrefix(cd, w.buf.Bytes())
 		// (gob: after a failed call the stream may end with type definitions only, which reads as an unexpected EOF)
@@ -467,6 +496,7 @@ func runEncodeTruncated(c *run.Ctx, r *kit.Rng, s *kit.Summary, n int) {
 		where    string
 		cut, len int
 		nrec     int
+		input    []byte
 	}
 	var jobs []job
 	var ops []string
@@ -508,7 +538,7 @@ func runEncodeTruncated(c *run.Ctx, r *kit.Rng, s *kit.Summary, n int) {
 			out := filepath.Join(c.Work, fmt.Sprintf("trunc-%d-%s.out", i, to.name))
 			os.Remove(out)
 			files = append(files, out)
-			jobs = append(jobs, job{from, to, want, out, where, k, len(st.data), len(rs)})
+			jobs = append(jobs, job{from, to, want, out, where, k, len(st.data), len(rs), st.data[:k]})
 			ops = append(ops, "encode "+kit.HexS(to.name)+" "+kit.HexS(out)+" "+kit.HexS(in))
 		}
 	}
@@ -517,9 +547,59 @@ func runEncodeTruncated(c *run.Ctx, r *kit.Rng, s *kit.Summary, n int) {
 		s.Skipped["encode-command: driver failed"]++
 		return
 	}
+	// the model of the command loop (Model/EncodeCmd.lean) on the same cut inputs: same return status, same
+	// number of output bytes (the order of header map entries is free), and its output read by the real decoder
+	var mops []string
+	var midx []int
+	for i, j := range jobs {
+		if (i/3+i)%3 != 0 { // every input once, with a rotating target
+			continue
+		}
+		midx = append(midx, i)
+		z := "u"
+		if len(j.want) > 0 {
+			z = zoneTok(&j.want[0])
+		}
+		mops = append(mops, "c09.encodecmd "+j.from.name+" "+j.to.name+" "+z+" "+kit.Hex(j.input))
+	}
+	mouts, merr := kit.RunDriver(c.Driver, mops)
+	s.Streams["encode-command-model"] += len(mops)
+	if merr != nil {
+		s.Diverge("encode-command-model", "(driver failure)", "", merr.Error())
+		mouts = nil
+	}
 	for i, j := range jobs {
 		data, _ := os.ReadFile(j.out) // no file = nothing written
 		got, term := decodePrefix(j.to, data)
+		mi := -1
+		for q, ix := range midx {
+			if ix == i {
+				mi = q
+			}
+		}
+		if mouts != nil && mi >= 0 {
+			f := strings.Fields(mouts[mi])
+			realStatus := "ok"
+			if strings.HasPrefix(res[i], "err") {
+				realStatus = "err"
+			}
+			if len(f) != 2 || f[0] != realStatus {
+				if !(len(j.want) == 0 && realStatus == "err") { // nothing decodable: format detection fails before the loop (C08)
+					s.Diverge("encode-command-model", clipOp(mops[mi]), realStatus, clipOp(mouts[mi]))
+				}
+			} else {
+				mb := kit.UnHex(f[1])
+				mg, mt := decodePrefix(j.to, mb)
+				same := len(mb) == len(data) && len(mg) == len(got) && mt == term
+				for k := 0; same && k < len(mg); k++ {
+					same = gen.SameResult(&mg[k], &got[k])
+				}
+				if !same {
+					s.Diverge("encode-command-model", clipOp(mops[mi]), fmt.Sprintf("%s, %d bytes, %d records then %s", realStatus, len(data), len(got), term),
+						fmt.Sprintf("%s, %d bytes, %d records then %s", f[0], len(mb), len(mg), mt))
+				}
+			}
+		}
 		s.Case(fmt.Sprint("encode-truncated:", i), true)
 		s.Count("encode-command:truncated-input from=" + j.from.name + " cut " + j.where)
 		if strings.HasPrefix(res[i], "err") {
@@ -538,6 +618,171 @@ func runEncodeTruncated(c *run.Ctx, r *kit.Rng, s *kit.Summary, n int) {
 				Input:    map[string]interface{}{"command": "vegeta encode -to " + j.to.name + " -output OUT IN", "input_codec": j.from.name, "input_records": j.nrec, "input_bytes": j.len, "input_cut_at": j.cut, "cut": j.where, "command_result": res[i]},
 				Expected: fmt.Sprintf("%d records then eof", len(j.want)), Observed: fmt.Sprintf("%d records then %s", len(got), term),
 				Key: map[string]interface{}{"codec": j.from.name, "encode_command": true}})
+		}
+	}
+	for _, f := range files {
+		os.Remove(f)
+	}
+}
+
+// runRoundRobinCut: several result streams read TOGETHER, as every command does when more than one file is
+// named (vegeta.NewRoundRobinDecoder; `encode` over several files): a stream cut at a sampled offset next to
+// intact and other cut streams, encodings mixed, records heterogeneous (a record with every field set next
+// to one with all-zero fields). Every record handed out must be a record completely written to its own
+// stream before that stream's cut (attack name = stream, compared field by field), each stream's order kept,
+// nothing invented, nothing lost.
+func runRoundRobinCut(c *run.Ctx, r *kit.Rng, s *kit.Summary, n int) {
+	var csvc codec
+	for _, cd := range codecs {
+		if cd.name == "csv" {
+			csvc = cd
+		}
+	}
+	haveVegeta := false
+	if _, err := os.Stat(c.Vegeta); err == nil {
+		haveVegeta = true
+	}
+	type set struct {
+		want   [][]vegeta.Result
+		cds    []string
+		cuts   []string
+		out    string
+		to     codec
+		encode bool
+	}
+	var sets []set
+	var ops []string
+	var files []string
+	check := func(st set, got []vegeta.Result, via string) {
+		in := map[string]interface{}{"read_through": via, "stream_codecs": st.cds, "stream_cuts": st.cuts}
+		next := make([]int, len(st.want))
+		for i := range got {
+			x := &got[i]
+			k := -1
+			fmt.Sscanf(x.Attack, "stream-%d", &k)
+			if k < 0 || k >= len(st.want) || next[k] >= len(st.want[k]) || !gen.SameResult(x, &st.want[k][next[k]]) {
+				exp := "no further record"
+				if k >= 0 && k < len(st.want) && next[k] < len(st.want[k]) {
+					exp = gen.ResultLine(&st.want[k][next[k]])
+				}
+				s.Violate(kit.Violation{Kind: "prefix_extra_record", What: "reading several (cut) streams together hands out a record that was never written to its stream", Input: in,
+					Expected: exp, Observed: fmt.Sprintf("record %d of %d: %s", i, len(got), gen.ResultLine(x)), Key: map[string]interface{}{"round_robin": true}})
+				return
+			}
+			next[k]++
+		}
+		for k := range st.want {
+			if next[k] != len(st.want[k]) {
+				s.Violate(kit.Violation{Kind: "prefix_missing_record", What: "reading several (cut) streams together loses records that were completely written before the cut", Input: in,
+					Expected: fmt.Sprintf("%d records of stream %d", len(st.want[k]), k), Observed: fmt.Sprintf("%d", next[k]), Key: map[string]interface{}{"round_robin": true}})
+				return
+			}
+		}
+	}
+	for i := 0; i < n; i++ {
+		ns := 2 + r.Pick(2)
+		st := set{to: codecs[i%len(codecs)]}
+		var decs []vegeta.Decoder
+		var paths []string
+		detectable := true
+		for k := 0; k < ns; k++ {
+			cd := codecs[r.Pick(len(codecs))]
+			if k == 0 || r.Chance(0.4) {
+				cd = gobCodec() // gob omits zero fields: the decoder that exposes leftovers of an earlier record
+			}
+			rs := genStream(r, csvc, 0)
+			for len(rs) < 4 {
+				rs = append(rs, genStream(r, csvc, 0)...)
+			}
+			for j := range rs {
+				if j%2 == 1 { // an all-zero-fields record right after a populated one
+					rs[j] = vegeta.Result{Timestamp: rs[j].Timestamp}
+				} else if len(rs[j].Headers) == 0 {
+					rs[j].Headers = http.Header{"X-Stream": {strconv.Itoa(k)}, "X-J": {strconv.Itoa(j), "v"}}
+				}
+				if rs[j].Error == "" && j%2 == 0 {
+					rs[j].Error = "error of stream " + strconv.Itoa(k)
+				}
+				rs[j].Attack = fmt.Sprintf("stream-%d", k)
+				rs[j].Seq = uint64(j)
+			}
+			es, status := encodeStream(cd, rs)
+			if status != "ok" {
+				detectable = false
+				break
+			}
+			cut, where := len(es.data), "intact"
+			if k == 0 || r.Chance(0.5) {
+				j := 1 + r.Pick(len(es.bounds)-1)
+				switch {
+				case cd.name == "csv" || r.Chance(0.25):
+					cut, where = es.bounds[j], "cut at a record boundary"
+				default:
+					cut, where = es.bounds[j-1]+1+r.Pick(es.bounds[j]-es.bounds[j-1]-1), "cut inside a record"
+				}
+			}
+			nw := 0
+			for _, b := range es.bounds {
+				if b <= cut {
+					nw++
+				}
+			}
+			st.want = append(st.want, rs[:nw])
+			st.cds = append(st.cds, cd.name)
+			st.cuts = append(st.cuts, fmt.Sprintf("%s (%d of %d bytes, %d of %d records)", where, cut, len(es.data), nw, len(rs)))
+			decs = append(decs, cd.dec(bytes.NewReader(es.data[:cut])))
+			p := filepath.Join(c.Work, fmt.Sprintf("rr-%d-%d.in", i, k))
+			os.WriteFile(p, es.data[:cut], 0o644)
+			paths = append(paths, p)
+			files = append(files, p)
+			if nw == 0 {
+				detectable = false
+			}
+			s.Count("round-robin:stream " + cd.name + " " + where)
+		}
+		if len(decs) != ns {
+			continue
+		}
+		// the library's round robin decoder, a fresh Result per call as the commands do
+		var got []vegeta.Result
+		p, _ := kit.Recover(func() {
+			dec := vegeta.NewRoundRobinDecoder(decs...)
+			for len(got) < 10000 {
+				var x vegeta.Result
+				if err := dec.Decode(&x); err != nil {
+					return
+				}
+				got = append(got, x)
+			}
+		})
+		s.Case(fmt.Sprint("round-robin:", i), true)
+		if p {
+			s.Violate(kit.Violation{Kind: "prefix_panic", What: "the round robin decoder panicked on cut streams", Input: map[string]interface{}{"stream_codecs": st.cds, "stream_cuts": st.cuts}})
+			continue
+		}
+		check(st, got, "vegeta.NewRoundRobinDecoder")
+		if haveVegeta && detectable {
+			st.out = filepath.Join(c.Work, fmt.Sprintf("rr-%d.out", i))
+			st.encode = true
+			op := "encode " + kit.HexS(st.to.name) + " " + kit.HexS(st.out)
+			for _, p := range paths {
+				op += " " + kit.HexS(p)
+			}
+			ops = append(ops, op)
+			sets = append(sets, st)
+			files = append(files, st.out)
+		}
+	}
+	if len(ops) > 0 {
+		if _, err := kit.RunVegeta(c.Vegeta, ops); err != nil {
+			s.Skipped["encode-command: driver failed"]++
+		} else {
+			for _, st := range sets {
+				data, _ := os.ReadFile(st.out)
+				got, _ := decodePrefix(st.to, data)
+				s.Count("round-robin:encode over several files to=" + st.to.name)
+				check(st, got, "vegeta encode -to "+st.to.name+" over the files")
+			}
 		}
 	}
 	for _, f := range files {
@@ -779,6 +1024,13 @@ func runEncodeOverwrite(c *run.Ctx, r *kit.Rng, s *kit.Summary, n int) {
 	}
 }
 
+func clipOp(x string) string {
+	if len(x) > 300 {
+		return x[:300] + "…"
+	}
+	return x
+}
+
 func bodySizes(rs []vegeta.Result) []int {
 	out := make([]int, len(rs))
 	for i := range rs {
@@ -990,6 +1242,7 @@ func runC09(c *run.Ctx, s *kit.Summary) {
 		}
 	}
 	runFailingEncode(r, s, c.N(40, 600))
+	encCallsModel.Diff(c.Driver, s)
 	for i := 0; i < c.N(1, 3); i++ {
 		runAttackCommand(c, s, []string{"old-results", "none", "junk"}[(i+int(c.Seed))%3])
 	}
@@ -998,4 +1251,5 @@ func runC09(c *run.Ctx, s *kit.Summary) {
 	runAttackComplete(c, s, "junk")
 	runEncodeOverwrite(c, r, s, c.N(24, 300))
 	runEncodeTruncated(c, r, s, c.N(24, 240))
+	runRoundRobinCut(c, r, s, c.N(120, 3000))
 }
